@@ -60,7 +60,14 @@ type bfCons struct {
 	errs                   []string
 }
 
-func bfTok(p, s, i int) int { return p*10000 + s*10 + i }
+func bfAbbrev(v []int) string {
+	if len(v) <= 60 {
+		return fmt.Sprint(v)
+	}
+	return fmt.Sprintf("%v ... (%d values) ... %v", v[:30], len(v), v[len(v)-20:])
+}
+
+func bfTok(p, s, i int) int { return p*1000000 + s*100000 + i }
 
 func TestBufFree(t *testing.T) {
 	prof := os.Getenv("VKIT_PROFILE")
@@ -81,11 +88,24 @@ func TestBufFree(t *testing.T) {
 		nProd := rapid.IntRange(1, 4).Draw(t, "producers")
 		var puts [][]*bfPut
 		totalPuts, totalVals := 0, 0
+		bigLeft := 0
+		if rapid.IntRange(0, 15).Draw(t, "hugeCase") == 0 {
+			bigLeft = 2 // one case in sixteen carries up to two huge batches (they cost thousands of Gets)
+		}
 		for p := 0; p < nProd; p++ {
 			nb := rapid.IntRange(1, 8).Draw(t, "batches")
 			var ps []*bfPut
 			for s := 0; s < nb; s++ {
 				k := rapid.IntRange(1, 4).Draw(t, "batch")
+				// batch sizes are not limited by the library: now and then a large or huge batch (at most two per case)
+				if bigLeft > 0 {
+					if rapid.IntRange(0, 3).Draw(t, "bigBatch") == 0 {
+						k = rapid.SampledFrom([]int{1000, 4096, 4097, 5000, 9000}).Draw(t, "hugeBatch")
+						bigLeft--
+					}
+				} else if rapid.IntRange(0, 19).Draw(t, "largeBatch") == 0 {
+					k = rapid.IntRange(5, 64).Draw(t, "largeBatchSize")
+				}
 				b := &bfPut{prod: p, seq: s}
 				for i := 0; i < k; i++ {
 					b.vals = append(b.vals, bfTok(p+1, s, i))
@@ -115,11 +135,12 @@ func TestBufFree(t *testing.T) {
 		}
 		witnessCommit := rapid.IntRange(1, 5).Draw(t, "witnessCommit")
 		cooldown := rapid.SampledFrom([]time.Duration{0, 0, 50 * time.Microsecond, time.Millisecond}).Draw(t, "cooldown")
+		cleanerYield := rapid.SampledFrom([]int{0, 0, 1, 3, 10}).Draw(t, "cleanerYield") // a cleaner callback may take its time
 		hookYield := map[int]int{}
 		for _, p := range []int{bigbuff.VerifGetAsyncStart, bigbuff.VerifWaitCondBeforePark, bigbuff.VerifWaitCondWatcherWoken, bigbuff.VerifCleanupAfterPass, bigbuff.VerifCleanupTimerFired} {
 			hookYield[p] = rapid.SampledFrom([]int{0, 0, 0, 1, 3, 10}).Draw(t, "hookYield")
 		}
-		trace := []string{fmt.Sprintf("producers=%d puts=%d values=%d prodYield=%d cooldown=%v witnessCommit=%d hooks=%v", nProd, totalPuts, totalVals, prodYield, cooldown, witnessCommit, hookYield)}
+		trace := []string{fmt.Sprintf("producers=%d puts=%d values=%d prodYield=%d cooldown=%v witnessCommit=%d hooks=%v cleanerYield=%d", nProd, totalPuts, totalVals, prodYield, cooldown, witnessCommit, hookYield, cleanerYield)}
 		for i, c := range cons {
 			trace = append(trace, fmt.Sprintf("c%d=%+v", i, c.script))
 		}
@@ -150,6 +171,9 @@ func TestBufFree(t *testing.T) {
 			b := new(bigbuff.Buffer)
 			_ = b.SetCleanerConfig(bigbuff.CleanerConfig{Cooldown: cooldown, Cleaner: func(size int, offsets []int) int {
 				r := bigbuff.DefaultCleaner(size, offsets)
+				for i := 0; i < cleanerYield; i++ {
+					runtime.Gosched()
+				}
 				if r > 0 {
 					sh := r
 					if sh > size {
@@ -363,12 +387,16 @@ func TestBufFree(t *testing.T) {
 			var hist []string
 			for _, ps := range puts {
 				for _, p := range ps {
-					hist = append(hist, fmt.Sprintf("put%v[%d..%d]", p.vals, p.called, p.returned))
+					if len(p.vals) > 8 {
+						hist = append(hist, fmt.Sprintf("put[%d..%d x%d][%d..%d]", p.vals[0], p.vals[len(p.vals)-1], len(p.vals), p.called, p.returned))
+					} else {
+						hist = append(hist, fmt.Sprintf("put%v[%d..%d]", p.vals, p.called, p.returned))
+					}
 				}
 			}
-			hist = append(hist, fmt.Sprintf("witness=%v", witness.firsts))
+			hist = append(hist, fmt.Sprintf("witness=%s", bfAbbrev(witness.firsts)))
 			for i, c := range cons {
-				hist = append(hist, fmt.Sprintf("c%d[new %d..%d] reads=%v errs=%v", i, c.newCalled, c.newReturned, c.reads, c.errs))
+				hist = append(hist, fmt.Sprintf("c%d[new %d..%d] reads=%s errs=%v", i, c.newCalled, c.newReturned, bfAbbrev(c.reads), c.errs))
 			}
 			hist = append(hist, fmt.Sprintf("evictions=%v", cleanLog))
 			vkit.Fail(t, sig, "%s\ncase: %s\nhistory: %s", fmt.Sprintf(f, a...), strings.Join(trace, " ; "), strings.Join(hist, " ; "))
@@ -413,11 +441,11 @@ func TestBufFree(t *testing.T) {
 						fail("C01/lost", "value %d of a successful Put never reached the witness", v)
 					}
 					if i > 0 && at != pos[p.vals[i-1]]+1 {
-						fail("C01/batch-not-contiguous", "batch %v is not contiguous / in argument order in the put order %v", p.vals, w)
+						fail("C01/batch-not-contiguous", "batch %v is not contiguous / in argument order in the put order %s", bfAbbrev(p.vals), bfAbbrev(w))
 					}
 				}
 				if pos[p.vals[0]] <= prevEnd {
-					fail("C01/producer-order", "producer %d's batches are out of program order in %v", p.prod, w)
+					fail("C01/producer-order", "producer %d's batches are out of program order in %s", p.prod, bfAbbrev(w))
 				}
 				prevEnd = pos[p.vals[len(p.vals)-1]]
 			}
@@ -425,7 +453,7 @@ func TestBufFree(t *testing.T) {
 		for _, a := range flat {
 			for _, b2 := range flat {
 				if a.returned < b2.called && pos[a.vals[0]] > pos[b2.vals[0]] {
-					fail("C01/realtime-order", "Put%v returned before Put%v was called but comes later in the put order", a.vals, b2.vals)
+					fail("C01/realtime-order", "Put%s returned before Put%s was called but comes later in the put order", bfAbbrev(a.vals), bfAbbrev(b2.vals))
 				}
 				if a != b2 && a.prod != b2.prod && a.called < b2.returned && b2.called < a.returned {
 					overlapPuts = true
@@ -452,7 +480,7 @@ func TestBufFree(t *testing.T) {
 					fail("C01/invented", "consumer %d read %d which was never put", i, v)
 				}
 				if k > 0 && at != pos[c.firsts[k-1]]+1 {
-					fail("C01/gap-or-reorder", "consumer %d's stream %v is not a contiguous run of the put order %v", i, c.firsts, w)
+					fail("C01/gap-or-reorder", "consumer %d's stream %v is not a contiguous run of the put order %s", i, bfAbbrev(c.firsts), bfAbbrev(w))
 				}
 			}
 			start := pos[c.firsts[0]]
